@@ -57,6 +57,21 @@ def gen_cases(cls, rng, tier):
                     steps = g.steps() + ["scr %d %s" % (k, op), lp, "snap"]
                     cases.append(Case("m%s%d" % (cls, idx), cls, steps, dict(kind="single-injection", loop=lp.split()[1] if lp.startswith("srch") else "loop")))
                     idx += 1
+    # a node CREATED by the closure is connected to the graph being walked (on-the-fly expansion): the loop / traversal then
+    # meets a node that did not exist when it started.  Not for the priority-first kinds (their order test reads node values).
+    for i in range(1200 if tier == "thorough" else 120):
+        g = sc.random_graph(cls, rng, maxn=5, maxe=7)
+        lps = [l for l in loops_for(cls, g.n, True) if " pmin " not in l and " pmax " not in l]
+        lp = rng.choice(lps)
+        k = rng.randint(0, 3)
+        u = rng.randrange(g.n)
+        steps = g.steps() + ["scr %d new 99 5" % k, "scr %d con %d %d 71" % (k, u, g.n)]
+        if rng.random() < 0.6:
+            steps.append("scr %d con %d %d 72" % (k, g.n, rng.randrange(g.n)))
+        if rng.random() < 0.3:
+            steps.append("scr %d con %d %d 73" % (k, g.n, g.n))
+        steps += [lp, "snap"]
+        cases.append(Case("mN%s%d" % (cls, i), cls, steps, dict(kind="node-created-and-wired-inside-the-closure")))
     # random: several operations at several invocation indices, larger graphs
     for i in range(6000 if tier == "thorough" else 300):
         g = sc.random_graph(cls, rng, maxn=6, maxe=10)
